@@ -36,7 +36,7 @@ from .. import c08_model as model
 from .. import c08_battery as battery
 
 ID = 'C08'
-BUDGET = {'quick': 420, 'thorough': 2700}
+BUDGET = {'quick': 900, 'thorough': 2700}
 
 T0 = 2_000_000_000.0          # virtual epoch (later than every real mtime on this machine)
 FILE_MTIME = T0 - 1000.0      # mtime given to the saved version of the buffer and its directory
